@@ -67,6 +67,11 @@ def run(ctx, rep):
     _r.floor = 1
     lib = ctx.lib
     cg = ctx.cg
+    # an expression in a later option (second --select, --sort-by, --group-by) is evaluated in a context derived by
+    # with_result: it must see the same input, parents and bindings as in the first (shared with C12)
+    from rules import c12 as _c12
+    common.share(_c12, ctx, rep, {"C12-FRAME", "C12-EXTEND"}, key_prefixes=["with_result"],
+                 floors={"C12-FRAME": 0, "C12-EXTEND": 0})
     # ------------------------------------------------------------ ONE-READER
     r = rep.rule("C13-ONE-READER", "every option parser reads its expression with selection::read_getter, and the "
                  "sub-parsers are reachable only through read_getter", floor=12, analysis="A1 who-may-call")
